@@ -38,15 +38,22 @@ type c11KeyVal struct {
 }
 
 func (k c11KeyVal) name() string {
-	if k.Shape == "" || k.Shape == "std" {
-		return k.T + "/" + fmt.Sprint(k.Len)
+	t := k.T
+	if k.T == "rsa" && k.ID == "mp3" { // the three-prime key pair
+		t += "/mp3"
 	}
-	return k.T + "/" + k.Shape
+	if k.Shape == "" || k.Shape == "std" {
+		return t + "/" + fmt.Sprint(k.Len)
+	}
+	return t + "/" + k.Shape
 }
 
 // unusual: not one of the key values of round 1 (byte strings, nil, parsed RSA / ECDSA keys, string)
 func (k c11KeyVal) unusual() bool {
 	if k.Shape != "" && k.Shape != "std" {
+		return true
+	}
+	if k.T == "rsa" && k.ID == "mp3" {
 		return true
 	}
 	switch k.T {
@@ -102,7 +109,7 @@ func c11GoKey(k c11KeyVal, octets []byte) any {
 		if k.Shape == "zero" {
 			return &rsa.PrivateKey{}
 		}
-		return c11ShapedRSA(key(k.ID).RSA(), k.Shape)
+		return c11ShapedRSA(xeRSAKey(k.ID), k.Shape)
 	}
 	return nil // "nil": the untyped nil interface
 }
@@ -123,7 +130,112 @@ func c11ShapedRSA(full *rsa.PrivateKey, shape string) *rsa.PrivateKey {
 	case "nod":
 		return &rsa.PrivateKey{PublicKey: pub}
 	}
+	if p, ok := c11RsaShapes[shape]; ok {
+		return c11RSAFromParts(full, p)
+	}
 	panic("harness: unknown RSA key shape " + shape)
+}
+
+// c11RsaParts says what an *rsa.PrivateKey holds (table RsaParts of spec/XmlEnc.tla).
+type c11RsaParts struct {
+	Ptr     string `json:"ptr"`     // ok | nil
+	N       string `json:"n"`       // ok | nil
+	D       string `json:"d"`       // ok | wrong | nil
+	Primes  string `json:"primes"`  // ok | nil | empty | presized | onenil | wrong
+	Precomp string `json:"precomp"` // kept | none | nodp | noqinv (kept, then Dp / Qinv set to nil)
+	Crt     string `json:"crt"`     // asis | nilentries
+}
+
+// c11RsaShapes is the harness's copy of the rows of RsaParts that round 4 added; every vector carries the row
+// of its key value and TestC11 stops (BROKEN) when the two tables differ.
+var c11RsaShapes = map[string]c11RsaParts{
+	"emptyprimes":  {"ok", "ok", "ok", "empty", "none", "asis"},
+	"presized":     {"ok", "ok", "ok", "presized", "none", "asis"},
+	"onenil":       {"ok", "ok", "ok", "onenil", "none", "asis"},
+	"wrongprimes":  {"ok", "ok", "ok", "wrong", "none", "asis"},
+	"wiped":        {"ok", "ok", "ok", "nil", "kept", "asis"},
+	"wipedentries": {"ok", "ok", "ok", "presized", "kept", "asis"},
+	"crtnil":       {"ok", "ok", "ok", "ok", "kept", "nilentries"},
+	// described in the spec, enumerated only with EnumerateOpenShapes (fixes/XmlEnc-d.md)
+	"dpnil":   {"ok", "ok", "ok", "ok", "nodp", "asis"},
+	"qinvnil": {"ok", "ok", "ok", "ok", "noqinv", "asis"},
+}
+
+// the rows of round 2, for the comparison only (those values are built by c11ShapedRSA / c11GoKey as before)
+var c11RsaShapesOld = map[string]c11RsaParts{
+	"std":       {"ok", "ok", "ok", "ok", "kept", "asis"},
+	"noprecomp": {"ok", "ok", "ok", "ok", "none", "asis"},
+	"noprimes":  {"ok", "ok", "ok", "nil", "none", "asis"},
+	"wrongd":    {"ok", "ok", "wrong", "nil", "none", "asis"},
+	"nod":       {"ok", "ok", "nil", "nil", "none", "asis"},
+	"zero":      {"ok", "nil", "nil", "nil", "none", "asis"},
+	"typednil":  {"nil", "nil", "nil", "nil", "none", "asis"},
+}
+
+// c11RSAFromParts builds a fresh *rsa.PrivateKey for the key pair of full holding what p says.  Nothing is shared
+// with full: Precomputed is computed anew from copies (its unexported fields cannot be copied), then the parts
+// the description leaves out are removed.
+func c11RSAFromParts(full *rsa.PrivateKey, p c11RsaParts) *rsa.PrivateKey {
+	if p.Ptr == "nil" {
+		return nil
+	}
+	cp := func(x *big.Int) *big.Int { return new(big.Int).Set(x) }
+	primes := func() []*big.Int {
+		var out []*big.Int
+		for _, pr := range full.Primes {
+			out = append(out, cp(pr))
+		}
+		return out
+	}
+	k := &rsa.PrivateKey{}
+	if p.N == "ok" {
+		k.PublicKey = rsa.PublicKey{N: cp(full.N), E: full.E}
+	}
+	switch p.D {
+	case "ok":
+		k.D = cp(full.D)
+	case "wrong":
+		k.D = new(big.Int).Add(full.D, big.NewInt(2))
+	}
+	if p.Precomp != "none" {
+		k.Primes = primes()
+		k.Precompute()
+		if k.Precomputed.Dp == nil {
+			panic("harness: Precompute left Precomputed empty")
+		}
+	}
+	switch p.Primes {
+	case "ok":
+		k.Primes = primes()
+	case "nil":
+		k.Primes = nil
+	case "empty":
+		k.Primes = []*big.Int{}
+	case "presized":
+		k.Primes = make([]*big.Int, len(full.Primes))
+	case "onenil":
+		k.Primes = primes()
+		k.Primes[len(k.Primes)-1] = nil
+	case "wrong":
+		k.Primes = primes()
+		k.Primes[0].Add(k.Primes[0], big.NewInt(2))
+	default:
+		panic("harness: unknown description of Primes: " + p.Primes)
+	}
+	switch p.Precomp {
+	case "nodp":
+		k.Precomputed.Dp = nil
+	case "noqinv":
+		k.Precomputed.Qinv = nil
+	}
+	if p.Crt == "nilentries" {
+		n := len(k.Precomputed.CRTValues)
+		if n == 0 {
+			n = 1
+		}
+		k.Precomputed.CRTValues = make([]rsa.CRTValue, n)
+	}
+	return k
 }
 
 // ---------------------------------------------------------------------------
@@ -154,7 +266,7 @@ var c11CertCache sync.Map
 // {N, E: e} is issued by another key (idp2): nobody needs the private key of a public key to have
 // it certified.
 func c11CertDER(n, e string) []byte {
-	if e == "F4" || e == "none" {
+	if (e == "F4" || e == "none") && n != "mp3" {
 		return key(n).Cert.Raw
 	}
 	id := n + "/" + e
@@ -162,7 +274,11 @@ func c11CertDER(n, e string) []byte {
 		return v.([]byte)
 	}
 	var exp int
-	fmt.Sscan(e, &exp)
+	if e == "F4" || e == "none" { // a key pair without certificate of its own in testdata/keys
+		exp = 65537
+	} else {
+		fmt.Sscan(e, &exp)
+	}
 	if exp < 3 {
 		panic("harness: bad public exponent " + e)
 	}
@@ -176,7 +292,7 @@ func c11CertDER(n, e string) []byte {
 	}
 	seed := sha256.Sum256([]byte("c11/cert/" + id))
 	rng := rand.New(rand.NewSource(int64(seed[0]) | int64(seed[1])<<8 | int64(seed[2])<<16))
-	der, err := x509.CreateCertificate(rngReader{rng}, tmpl, issuer.Cert, &rsa.PublicKey{N: key(n).RSA().N, E: exp}, issuer.Key)
+	der, err := x509.CreateCertificate(rngReader{rng}, tmpl, issuer.Cert, &rsa.PublicKey{N: xeRSAKey(n).N, E: exp}, issuer.Key)
 	if err != nil {
 		panic("harness: cannot issue certificate " + id + ": " + err.Error())
 	}
@@ -184,7 +300,7 @@ func c11CertDER(n, e string) []byte {
 	if err != nil {
 		panic("harness: issued certificate does not parse: " + err.Error())
 	}
-	if pk, ok := c.PublicKey.(*rsa.PublicKey); !ok || pk.E != exp || pk.N.Cmp(key(n).RSA().N) != 0 {
+	if pk, ok := c.PublicKey.(*rsa.PublicKey); !ok || pk.E != exp || pk.N.Cmp(xeRSAKey(n).N) != 0 {
 		panic("harness: issued certificate carries another public key")
 	}
 	c11CertCache.Store(id, der)
